@@ -1035,7 +1035,7 @@ pub mod verif_fwd {
     pub fn wire_bytes(msg: &DnsMessage, in_reply: &dnspkt::DNSPkt) -> Vec<u8> {
         DnsListenerHandler::prepare_to_send(
             in_reply,
-            response_size_limit(&msg.protocol, msg.in_query.bufsize),
+            super::response_size_limit(&msg.protocol, msg.in_query.bufsize),
         )
     }
     pub fn response_size_limit(tcp: bool, advertised: u16) -> usize {
